@@ -146,6 +146,10 @@ typedef struct rec {
     uint32_t target;  /* burst: stop when the cardinality equals it (0 = none) */
     uint32_t walk;    /* burst: walk the (non-)members instead */
     uint32_t seed;    /* addMany SH_RANDOM / SH_DUPS */
+    uint32_t stripes; /* burst: each element is a range of `slen` values */
+    uint32_t slen;    /* stripes: length of each range */
+    uint32_t sfirst;  /* stripes: length of the first range (0 = slen) */
+    uint32_t sclear;  /* stripes: clear the slot first */
 } rec;
 
 static const uint16_t LEN_TBL[9] = {1,    100,  4000,  4095, 4096,
@@ -202,6 +206,22 @@ static void decode_rec(rec *r, uint8_t op, uint8_t slot, uint16_t a,
         r->n = BURST_TBL[(b >> 3) & 15];
         r->target = ((b >> 7) & 3) ? 4094 + ((b >> 7) & 3) : 0;
         r->walk = (b >> 9) & 1;
+        if ((b >> 10) & 1) {
+            /* striped ranges: an arithmetic progression of RANGES (ascending,
+             * with gaps unless stride == 1), optionally starting with a long
+             * range on a cleared set - the history that builds containers of
+             * many runs */
+            static const uint16_t SLEN[8] = {1, 2, 3, 8, 50, 300, 1000, 4097};
+            r->stripes = 1;
+            r->walk = 0;
+            r->target = 0;
+            r->slen = SLEN[(b >> 11) & 7];
+            r->sfirst = ((b >> 14) & 1) ? 4097 + (a & 1023) : 0;
+            r->sclear = (b >> 15) & 1;
+            if (r->n > 48) {
+                r->n = 48;
+            }
+        }
         break;
     default:
         break;
@@ -215,6 +235,8 @@ static uint64_t rec_hash(uint64_t h, const rec *r) {
     h = vf_mix(h, ((uint64_t)r->n << 32) | (r->stride << 16) | (r->shape << 8) |
                       (r->walk << 4));
     h = vf_mix(h, ((uint64_t)r->target << 32) | r->seed);
+    h = vf_mix(h, ((uint64_t)r->stripes << 48) | ((uint64_t)r->slen << 32) |
+                      ((uint64_t)r->sfirst << 8) | r->sclear);
     return h;
 }
 
@@ -246,6 +268,12 @@ static void rec_desc(vf_report *rep, const rec *r) {
         vf_desc(rep, "s%u=%s(s%u,s%u); ", r->dst, OPNAME[r->op], r->s1, r->s2);
         break;
     default:
+        if (r->stripes) {
+            vf_desc(rep, "%s s%u stripes start=%u len=%u first=%u gap=%u n=%u%s; ",
+                    OPNAME[r->op], r->dst, r->x & 0x3fff, r->slen, r->sfirst,
+                    r->stride - 1, r->n, r->sclear ? " clearFirst" : "");
+            break;
+        }
         vf_desc(rep, "%s s%u start=%u stride=%u n=%u target=%u walk=%u; ",
                 OPNAME[r->op], r->dst, r->x, r->stride, r->n, r->target,
                 r->walk);
@@ -736,6 +764,57 @@ static int apply(ctx *c, const rec *r) {
             }
         }
         uint32_t cursor = r->x, last = r->x;
+        if (r->stripes) {
+            if (r->sclear) {
+                varintBitmapClear(c->vb[d]);
+                m_clear(md);
+            }
+            uint32_t lo = r->x & 0x3fff; /* leave room for 48 stripes */
+            for (uint32_t i = 0; i < r->n; i++) {
+                uint32_t len = (i == 0 && r->sfirst) ? r->sfirst : r->slen;
+                uint32_t hi = lo + len;
+                if (hi > 65535) {
+                    break;
+                }
+                if (add) {
+                    varintBitmapAddRange(c->vb[d], (uint16_t)lo, (uint16_t)hi);
+                } else {
+                    varintBitmapRemoveRange(c->vb[d], (uint16_t)lo,
+                                            (uint16_t)hi);
+                }
+                for (uint32_t v = lo; v < hi; v++) {
+                    if (add) {
+                        m_add(md, v);
+                    } else {
+                        m_del(md, v);
+                    }
+                }
+                uint32_t got = varintBitmapCardinality(c->vb[d]);
+                if (got != md->card) {
+                    return FAILF(c, "cardinality", "count",
+                                 "record %u (%s, stripe #%u = [%u,%u)): slot %u "
+                                 "cardinality %u, model %u (container %s)",
+                                 c->recno, after, i, lo, hi, d, got, md->card,
+                                 type_name(slot_type(c, d)));
+                }
+                if (check_contains(c, d, (int64_t)lo - 1, after) ||
+                    check_contains(c, d, lo, after) ||
+                    check_contains(c, d, (int64_t)hi - 1, after) ||
+                    check_contains(c, d, hi, after) ||
+                    check_contains(c, d, r->x & 0x3fff, after)) {
+                    return 1;
+                }
+                last = hi - 1;
+                /* stride 1: adjacent stripes (merge); otherwise a gap */
+                lo = hi + (r->stride - 1) * (1 + (i & 3));
+            }
+            nb[nnb++] = (int64_t)(r->x & 0x3fff) - 1;
+            nb[nnb++] = r->x & 0x3fff;
+            nb[nnb++] = last;
+            nb[nnb++] = (int64_t)last + 1;
+            forceFull = 1;
+            break;
+        }
         for (uint32_t i = 0; i < limit; i++) {
             uint32_t v;
             if (r->walk) {
